@@ -44,6 +44,10 @@ func Run(c *lg.Chunk, lines lg.Lines, args []Value, o Options) (res Result) {
 	}
 	it := &Interp{G: NewTable(), lines: lines, chunk: o.Chunk, N: &Namer{ids: map[interface{}]int{}}, fuel: o.Fuel,
 		labels: map[*lg.Block]map[string]int{}, done: make(chan struct{}), MaxTrace: o.MaxTrace, Features: map[string]int{}, hostFuncs: map[string]*Builtin{}}
+	if bad := lg.Validate(c); bad != "" {
+		// not a Lua program: a bug of the generator, never a verdict on golua
+		return Result{Kind: "unspecified", Reason: "invalid program generated: " + bad, Features: map[string]int{}}
+	}
 	it.setupGlobals()
 	if o.Setup != nil {
 		o.Setup(it)
